@@ -171,3 +171,16 @@ theorem not_comment_not_cosmetic (line : Bytes) (h : hostLineCarveOut line = fal
           simp at this
 
 end UF.H
+
+namespace UF.H
+open Bytes
+
+def c18Ext : Ext where
+  psl := fun _ => ([], false)
+  parseAddr := fun s =>
+    if s == lit "0.0.0.0" then some { is4 := true, val := 0 }
+    else if s == lit "::ffff:1.2.3.4" then some { is4 := false, val := 281470698652420 } else none
+  parsePrefix := fun _ => none
+  pat := fun _ _ _ => false
+
+end UF.H
